@@ -18,7 +18,8 @@ BINDERS = ['assign', 'augassign', 'annassign', 'annonly', 'for', 'with', 'except
 REFPOS = ['expr', 'call', 'default', 'decorator', 'annotation', 'base', 'classkw', 'fstring', 'compiter', 'compcond', 'compelt', 'lambdabody', 'walrusvalue',
           'return', 'attrbase', 'subscript', 'store', 'augstore', 'delete', 'closure_call', 'yield', 'kwvalue', 'compiter2', 'nested_fstring', 'conditional', 'global_read',
           'kwdefault', 'vararg_annotation', 'kwarg_annotation', 'kwonly_annotation', 'posonly_default', 'lambda_default', 'lambda_kwdefault', 'class_decorator',
-          'return_annotation', 'kwdefault_shadowed', 'default_shadowed']
+          'return_annotation', 'kwdefault_shadowed', 'default_shadowed', 'decorator_shadowed', 'class_decorator_shadowed', 'base_shadowed', 'classkw_shadowed',
+          'annotation_shadowed', 'return_annotation_shadowed', 'lambda_default_shadowed', 'compiter_shadowed', 'class_augassign', 'class_load_store', 'nested_class_method']
 SUBJECTS = ['subject', 'A', '_A', 'len', 'x', 'B', 'value']
 
 
@@ -85,6 +86,28 @@ def ref_expr(pos, name):
         return ['print(str(%s))' % name]
     if pos == 'default':
         return ['def d_(p=%s):\n    return p\nprint(d_())' % name]
+    if pos == 'decorator_shadowed':
+        return ['def sdeco_(v):\n    return lambda f: f\n@sdeco_(%s)\ndef sdecorated_(%s=0):\n    %s = [%s]\n    return %s\nprint(sdecorated_())' % (name, name, name, name, name)]
+    if pos == 'class_decorator_shadowed':
+        return ['def scdeco_(v):\n    return lambda c: c\n@scdeco_(%s)\nclass SDecorated_:\n    %s = 5\n    other_ = %s\nprint(SDecorated_.other_)' % (name, name, name)]
+    if pos == 'base_shadowed':
+        return ['class SBase_(*([%s] if isinstance(%s, type) else [])):\n    %s = 6\nprint(SBase_.%s)' % (name, name, name, name)]
+    if pos == 'classkw_shadowed':
+        return ['class SKw_(metaclass=type if %s is not None else type):\n    %s = 7' % (name, name)]
+    if pos == 'annotation_shadowed':
+        return ['def sann_(%s: %s = 0, *rest_: %s, **more_: %s):\n    return %s\nsann_()' % (name, name, name, name, name)]
+    if pos == 'return_annotation_shadowed':
+        return ['def sret_() -> %s:\n    %s = 1\n    return %s\nsret_()' % (name, name, name)]
+    if pos == 'lambda_default_shadowed':
+        return ['print((lambda %s=%s: %s)())' % (name, name, name)]
+    if pos == 'compiter_shadowed':
+        return ['print([%s for %s in [%s]])' % (name, name, name)]
+    if pos == 'class_augassign':
+        return ['class SAug_:\n    try:\n        %s += 1\n    except Exception as e_:\n        caught_ = type(e_).__name__' % name]
+    if pos == 'class_load_store':
+        return ['class SLoadStore_:\n    try:\n        %s = %s\n    except NameError:\n        %s = "unbound"\nprint(SLoadStore_.%s)' % (name, name, name, name)]
+    if pos == 'nested_class_method':
+        return ['class SOuter_:\n    %s = "outer attribute"\n    class SInner_:\n        def method(self):\n            return %s\ntry:\n    print(SOuter_.SInner_().method())\nexcept NameError:\n    print("NameError")' % (name, name)]
     if pos == 'kwdefault':
         return ['def kd_(*, p=%s):\n    return p\nprint(kd_())' % name]
     if pos == 'kwdefault_shadowed':
@@ -303,6 +326,27 @@ def enumerate_cases(max_stmt_depth=2, expr_depth=(0, 1), subjects=('subject',), 
         n += 1
         if sample is not None and n >= sample:
             return
+
+
+def stratified_cases(seed, per_cell=1):
+    """one random completion (outer nesting, expression scopes, bind level, subject) for every (innermost statement scope kind, binder, reference position)"""
+    for inner in ['module'] + STMT_SCOPES:
+        for binder in BINDERS:
+            for rp in REFPOS:
+                for k in range(per_cell):
+                    r = common.rng(seed, 'scopegen-strat', inner, binder, rp, k)
+                    for attempt in range(6):
+                        if inner == 'module':
+                            kinds = []
+                        else:
+                            kinds = [r.choice(STMT_SCOPES) for _ in range(r.choice([0, 0, 1, 1, 2]))] + [inner]
+                        ekinds = [r.choice(EXPR_SCOPES) for _ in range(r.choice([0, 0, 0, 1]))]
+                        bl = r.randrange(0, len(kinds) + 1)
+                        subj = r.choice(SUBJECTS)
+                        src = build(kinds, ekinds, bl, binder, rp, subj)
+                        if src is not None:
+                            yield {'shape': 'scope.%s|%s|%s@%d|%s|%s' % ('/'.join(kinds) or 'module', '/'.join(ekinds) or '-', binder, bl, rp, subj), 'src': src}
+                            break
 
 
 def sampled_cases(seed, n, max_stmt_depth=4):
